@@ -67,12 +67,23 @@ CLAUSES = {
     "invariant": "System/internal-invariant.blocks_sorted_disjoint_in_range_consumed_marked",
 }
 
-SLICES = [
-    (None, None, None), (None, None, -1), (1, None, None), (None, -1, None), (None, None, 2),
-    (1, None, 2), (-2, None, None), (None, 2, None), (-3, -1, None), (None, None, -2),
-    (2, 1, None), (-1, None, None), (1, -1, None), (0, 100, 3), (-100, 2, None),
-    (None, None, 3), (-1, None, -1), (-2, 0, -1), (3, None, None), (None, -3, None),
-]
+SLICE_GROUPS = {
+    "plain": [(None, None, None), (1, None, None), (None, 2, None), (3, None, None), (2, 1, None)],
+    "negative-bounds": [(None, -1, None), (-2, None, None), (-3, -1, None), (-1, None, None), (1, -1, None),
+                        (None, -3, None), (-100, 2, None)],
+    "stepped": [(None, None, 2), (1, None, 2), (0, 100, 3), (None, None, 3)],
+    "reversed": [(None, None, -1), (None, None, -2), (-1, None, -1), (-2, 0, -1)],
+}
+
+# groups of clauses evaluated by one task over the whole enumerated scope (keys understood by check_system / run_case)
+EXH_GROUPS = [
+    ("iteration", ("iter",)),
+    ("len-composition-invariant", ("len", "composition", "invariant")),
+    ("refuses", ("refuses",)),
+    ("index-nonneg", ("int>=0",)),
+    ("index-neg", ("int<0",)),
+    ("index-error", ("index_error",)),
+] + [("slices-" + g, ("slices:" + g,)) for g in SLICE_GROUPS]
 
 
 def info(prop):
@@ -95,15 +106,22 @@ def info(prop):
                         "out-of-range integer index is required to raise IndexError (sequence protocol; the code's own "
                         "'Molecule index out of range' branch)"],
         "explanation": ("Bounded run-time contract checking (smallscope) of the real System class: every sequence of 1..4 (quick) / "
-                        "1..6 (thorough) molecules over 4 species (single-residue 3 atoms; one atom; three residues X,Y,X with "
-                        "gapped residue numbers; unloaded solvent) is written to a .gro file, every permutation of the loading "
-                        "order of the loadable species present is used to construct System(fgro, *ftops), and the clauses of "
-                        "the statement are evaluated on the public API (iteration, len, composition, every int index in "
-                        "[-len, len), IndexError outside, 20 fixed slices, refusal of every absent topology) against the "
-                        "generator's record list.  Plus: systems of solvent only (no topology), seeded random longer systems, "
-                        "and the shipped BMIM/BF4 box in both loading orders against an independent parse.  The class "
-                        "invariant of the private block list is an extra obligation labelled internal-invariant.  Nothing is "
-                        "deductive."),
+                        "1..6 (thorough, exhaustive, not sampled) molecules over 4 species (single-residue 3 atoms; one atom; "
+                        "three residues X,Y,X with gapped residue numbers; unloaded solvent) is written to a .gro file, every "
+                        "permutation of the loading order of the loadable species present is used to construct "
+                        "System(fgro, *ftops), and the clauses of the statement are evaluated on the public API: iteration "
+                        "against the generator's record list (one molecule per instance, file order, contiguous disjoint runs, "
+                        "names equal to the topology's, names/residues/ids/coordinates equal to the file's), len and "
+                        "composition against the record list, every int index in [-len, len), IndexError outside, 20 fixed "
+                        "slices (plain, negative bounds, stepped, reversed) and a second iteration against the first iteration, "
+                        "refusal (IOError/OSError) of every absent topology added last or loaded first, including a Y,Y "
+                        "topology whose residue kinds are in the file but never as a run.  Each task evaluates one clause "
+                        "group over the whole scope, so a clause has one obligation per scope family.  Plus: files of solvent "
+                        "only (empty System), seeded random longer systems (7..24 quick / 7..60 thorough molecules, runs of "
+                        "equal molecules), and the shipped BMIM/BF4 box (300+300) in both loading orders against an "
+                        "independent fixed-column parse (int indices: every 7th plus both ends).  The class invariant of the "
+                        "private block list is an extra obligation labelled internal-invariant (undecided if the private "
+                        "layout changes).  Nothing is deductive."),
         "rule": ("one contract evaluation per (molecule sequence, loading order) and clause; per (case, index) for integer "
                  "indexing and per (case, slice) for slicing; non-trivial = cases with at least two recognised molecules"),
         "exhaustive": True,
@@ -269,42 +287,70 @@ class Result:
         self.harness.setdefault(clause, msg)
 
 
-def check_system(s, exp, res, slices=SLICES, index_stride=1):
-    """Evaluate the public-API clauses of the statement on a constructed System ``s``
-    against the oracle ``exp`` (list of expected fingerprints in file order)."""
+def check_system(s, exp, records, res, only=None, index_stride=1):
+    """Evaluate the public-API clauses of the statement on a constructed System ``s``.
+
+    ``exp``: expected fingerprints in file order (oracle); ``records``: the file's atom records
+    (oracle), atom id k+1 at position k.  Iteration is compared with the oracle; indexing, slicing
+    and repeated iteration are compared with iteration ("agree with each other"), or directly with
+    the oracle when iteration itself fails, so that the conjunction is agreement of every access
+    route with the file.  ``only``: subset of clause groups to report (None = all)."""
     N = len(exp)
+
+    def sel(k):
+        return only is None or k in only
+
+    needs_obs = only is None or any(k in ("iter", "int>=0", "int<0", "index_error") or k.startswith("slices:") for k in only)
+    if not needs_obs:
+        obs = None
+    res_all = res
+    if not sel("iter"):
+        res = Result()      # iteration is only the reference here; its verdict belongs to another task
     # --- iteration: one molecule per instance, in file order
     obs = None
     try:
-        obs = [fingerprint(m) for m in s]
+        if needs_obs:
+            obs = [fingerprint(m) for m in s]
     except Exception as e:  # the property demands a result
         res.bad("file_order", f"iteration raises {_exc(e)}; expected {N} molecules {[_short(f) for f in exp][:8]}",
                 exc=type(e).__name__)
-    if obs is not None:
+    if obs is not None and sel("iter"):
         so, se = [_short(f) for f in obs], [_short(f) for f in exp]
         if so != se:
             res.bad("file_order", f"list(System) gives (name, first atom id, n atoms) {so[:10]}; the file holds {se[:10]}")
         else:
             res.ok("file_order")
-        # --- each molecule covers a contiguous run, disjoint from the others, names/coords/ids of the file
+        # --- each molecule covers a contiguous run, disjoint from the others, whose names match the
+        #     topology atom by atom and whose names / residues / ids / coordinates are the file's
         msg = None
-        for k, (fo, fe) in enumerate(zip(obs, exp)):
+        seen = set()
+        for k, fo in enumerate(obs):
             ids = fo[5]
-            if any(b != a + 1 for a, b in zip(ids, ids[1:])):
+            if not ids:
+                msg = f"molecule {k} has no atoms"
+            elif any(b != a + 1 for a, b in zip(ids, ids[1:])):
                 msg = f"molecule {k}: atom ids {list(ids)} are not a contiguous run"
-            elif fo != fe:
-                fld = ["molecule name", "atom names", "topology atom names", "residue names", "residue numbers",
-                       "atom ids", "coordinates"]
-                j = next(i for i in range(7) if fo[i] != fe[i])
-                msg = f"molecule {k}: {fld[j]} {fo[j]!r} differ from the file's {fe[j]!r}"
+            elif ids[0] < 1 or ids[-1] > len(records):
+                msg = f"molecule {k}: atom ids {list(ids)} are not in the file (1..{len(records)})"
+            elif seen & set(ids):
+                msg = f"molecule {k}: atoms {sorted(seen & set(ids))} already belong to another molecule"
+            else:
+                seen.update(ids)
+                rr = records[ids[0] - 1:ids[-1]]
+                want = (tuple(r["name"] for r in rr), tuple(r["name"] for r in rr), tuple(r["resname"] for r in rr),
+                        tuple(r["resid"] for r in rr), tuple(r["atomid"] for r in rr),
+                        tuple(tuple(round(c, 6) for c in r["pos"]) for r in rr))
+                fld = ["atom names", "topology atom names", "residue names", "residue numbers", "atom ids", "coordinates"]
+                for j in range(6):
+                    if fo[1 + j] != want[j]:
+                        msg = (f"molecule {k} (atoms {ids[0]}..{ids[-1]}): {fld[j]} {fo[1 + j]!r} differ from the "
+                               f"file's {want[j]!r}")
+                        break
             if msg:
                 break
-        if msg is None:
-            allids = [i for fo in obs for i in fo[5]]
-            if len(set(allids)) != len(allids):
-                msg = "atom runs of different molecules overlap"
-        if msg is None and len(obs) != len(exp):
-            msg = f"{len(obs)} molecules instead of {len(exp)}"
+        if msg is None and so == se and obs != exp:
+            k = next(i for i in range(N) if obs[i] != exp[i])
+            msg = f"molecule {k}: {obs[k]!r} differs from the expected {exp[k]!r}"
         if msg:
             res.bad("atoms", msg)
         else:
@@ -318,10 +364,16 @@ def check_system(s, exp, res, slices=SLICES, index_stride=1):
                 res.ok("reiter")
         except Exception as e:
             res.bad("reiter", f"second iteration raises {_exc(e)}", exc=type(e).__name__)
+    res = res_all
+    ref = obs if obs is not None else exp
+    what = "list(System)" if obs is not None else "the file order"
+    R = len(ref)
     # --- len
     try:
-        n = len(s)
-        if n != N:
+        n = len(s) if sel("len") else None
+        if n is None:
+            pass
+        elif n != N or n != R:
             res.bad("len", f"len(System) = {n}; the file holds {N} instances of loaded species"
                            + (f"; iteration gives {len(obs)}" if obs is not None else ""))
         else:
@@ -331,54 +383,64 @@ def check_system(s, exp, res, slices=SLICES, index_stride=1):
     # --- composition
     want = dict(Counter(f[0] for f in exp))
     try:
-        comp = {k: int(v) for k, v in dict(s.composition).items() if v}
-        if comp != want:
-            res.bad("composition", f"composition = {comp}; expected {want}")
+        comp = {k: int(v) for k, v in dict(s.composition).items() if v} if sel("composition") else None
+        if comp is None:
+            pass
+        elif comp != want:
+            res.bad("composition", f"composition = {comp}; the file holds {want}"
+                                   + (f"; iteration gives {dict(Counter(f[0] for f in obs))}" if obs is not None else ""))
         else:
             res.ok("composition")
     except Exception as e:
         res.bad("composition", f"composition raises {_exc(e)}", exc=type(e).__name__)
-    # --- integer indexing, every i in [-N, N)
-    idx = list(range(-N, N))
+    # --- integer indexing, every i in [-R, R)
+    idx = [i for i in range(-R, R) if sel("int>=0" if i >= 0 else "int<0")]
     if index_stride > 1:
-        keep = {-N, -N + 1, -2, -1, 0, 1, N - 2, N - 1}
+        keep = {-R, -R + 1, -2, -1, 0, 1, R - 2, R - 1}
         idx = [i for i in idx if i in keep or i % index_stride == 0]
     for i in idx:
+        ck = "getitem_int[i>=0]" if i >= 0 else "getitem_int[i<0]"
         try:
             fo = fingerprint(s[i])
-            if fo != exp[i]:
-                res.bad("getitem_int", f"System[{i}] is {_short(fo)} (name, first atom id, n atoms); "
-                                       f"instance {i} of the file is {_short(exp[i])}", index=i)
+            if fo != ref[i]:
+                res.bad(ck, f"System[{i}] is {_short(fo)} (name, first atom id, n atoms); "
+                                       f"{what}[{i}] is {_short(ref[i])}", index=i)
             else:
-                res.ok("getitem_int")
+                res.ok(ck)
         except Exception as e:
-            res.bad("getitem_int", f"System[{i}] raises {_exc(e)}; len is {N}", index=i, exc=type(e).__name__)
+            res.bad(ck, f"System[{i}] raises {_exc(e)}; {what} has {R} molecules", index=i,
+                    exc=type(e).__name__)
     # --- IndexError outside
-    for i in (N, N + 1, N + 5, -N - 1, -N - 2):
+    for i in (R, R + 1, R + 5, -R - 1, -R - 2) if sel("index_error") else ():
         try:
             m = s[i]
-            res.bad("index_error", f"System[{i}] returns {_short(fingerprint(m))} although len is {N}", index=i)
+            res.bad("index_error", f"System[{i}] returns {_short(fingerprint(m))} although {what} has {R} molecules",
+                    index=i)
         except IndexError:
             res.ok("index_error")
         except Exception as e:
-            res.bad("index_error", f"System[{i}] raises {_exc(e)} instead of IndexError (len is {N})", index=i,
-                    exc=type(e).__name__)
+            res.bad("index_error", f"System[{i}] raises {_exc(e)} instead of IndexError ({what} has {R} molecules)",
+                    index=i, exc=type(e).__name__)
     # --- slices
-    for sl in slices:
-        sobj = slice(*sl)
-        try:
-            got = s[sobj]
-            if not isinstance(got, list):
-                res.bad("slices", f"System[{sl}] is a {type(got).__name__}, not a list", slice=list(sl))
-                continue
-            fo = [fingerprint(m) for m in got]
-            if fo != exp[sobj]:
-                res.bad("slices", f"System[slice{sl}] gives {[_short(f) for f in fo][:10]}; "
-                                  f"file order sliced gives {[_short(f) for f in exp[sobj]][:10]}", slice=list(sl))
-            else:
-                res.ok("slices")
-        except Exception as e:
-            res.bad("slices", f"System[slice{sl}] raises {_exc(e)}", slice=list(sl), exc=type(e).__name__)
+    for grp, lst in SLICE_GROUPS.items():
+        if not sel("slices:" + grp):
+            continue
+        ck = f"slices[{grp}]"
+        for sl in lst:
+            sobj = slice(*sl)
+            try:
+                got = s[sobj]
+                if not isinstance(got, list):
+                    res.bad(ck, f"System[slice{sl}] is a {type(got).__name__}, not a list", slice=list(sl))
+                    continue
+                fo = [fingerprint(m) for m in got]
+                if fo != ref[sobj]:
+                    res.bad(ck, f"System[slice{sl}] gives {[_short(f) for f in fo][:10]}; "
+                                f"{what}[slice{sl}] gives {[_short(f) for f in ref[sobj]][:10]}", slice=list(sl))
+                else:
+                    res.ok(ck)
+            except Exception as e:
+                res.bad(ck, f"System[slice{sl}] raises {_exc(e)}", slice=list(sl), exc=type(e).__name__)
 
 
 def check_refuses(s, ftops, absent, res):
@@ -439,9 +501,14 @@ def check_invariant(s, instances, loaded, res):
         res.ok("invariant")
 
 
-def run_case(files, seq, order, res, absent=None, fresh_absent=False, slices=SLICES, index_stride=1,
+def run_case(files, seq, order, res, absent=None, fresh_absent=False, only=None, index_stride=1,
              records=None, instances=None, fgro=None, exp=None):
-    """One (sequence, loading order): construct the real System and evaluate every clause."""
+    """One (sequence, loading order): construct the real System and evaluate the clauses (all, or the
+    groups named in ``only``)."""
+
+    def sel(k):
+        return only is None or k in only
+
     own = fgro is None
     if records is None:
         records, instances = build_records(seq)
@@ -456,16 +523,20 @@ def run_case(files, seq, order, res, absent=None, fresh_absent=False, slices=SLI
         try:
             with contextlib.redirect_stdout(io.StringIO()):
                 s = System(fgro, *[files.ftops[k] for k in order])
-            res.ok("constructs")
+            if sel("iter"):
+                res.ok("constructs")
         except Exception as e:
-            res.bad("constructs", f"System(fgro, {', '.join(order)}) raises {_exc(e)} although every loaded species "
-                                  f"has instances in the file", exc=type(e).__name__)
+            if sel("iter"):
+                res.bad("constructs", f"System(fgro, {', '.join(order)}) raises {_exc(e)} although every loaded species "
+                                      f"has instances in the file", exc=type(e).__name__)
             return
         with contextlib.redirect_stdout(io.StringIO()):
-            check_system(s, exp, res, slices=slices, index_stride=index_stride)
-        check_invariant(s, instances, set(order), res)
-        check_refuses(s, files.ftops, absent, res)
-        if fresh_absent:
+            check_system(s, exp, records, res, only=only, index_stride=index_stride)
+        if sel("invariant"):
+            check_invariant(s, instances, set(order), res)
+        if sel("refuses"):
+            check_refuses(s, files.ftops, absent, res)
+        if fresh_absent and sel("refuses"):
             # the absent topology loaded first, on a file nothing has been consumed from
             for key in absent:
                 try:
@@ -538,12 +609,13 @@ class Family:
         if self.sample is None:
             self.sample = dict(cex_base)
 
-    def obligations(self, clauses=None):
+    def obligations(self):
         out = []
-        for c in (clauses or CLAUSES):
-            if c not in self.evals and c not in self.harness and c not in self.first:
-                continue
-            oid = f"{PROP}/{CLAUSES[c]}/{self.scope}"
+        keys = sorted(set(self.evals) | set(self.harness) | set(self.first),
+                      key=lambda k: (list(CLAUSES).index(k.split("[")[0]), k))
+        for c in keys:
+            base, _, sub = c.partition("[")
+            oid = f"{PROP}/{CLAUSES[base]}/{self.scope}" + (f".{sub[:-1]}" if sub else "")
             if c in self.first:
                 msg, cex = self.first[c]
                 out.append(ob(oid, "refuted", kind="bounded", engine="smallscope", backend="runtime-contract",
@@ -561,8 +633,11 @@ class Family:
         return out
 
 
-def task_exhaustive(maxlen, part, nparts, seed):
-    fam = Family(f"seq<={maxlen}.part{part:02d}of{nparts}")
+def task_exhaustive(maxlen, group, part, nparts, seed):
+    """The clause group ``group`` of EXH_GROUPS evaluated on every (sequence, loading order) of the scope
+    (or on the part ``part`` of ``nparts`` of the sequences, thorough tier)."""
+    only = dict(EXH_GROUPS)[group]
+    fam = Family(f"seq<={maxlen}" + (f".part{part:02d}of{nparts}" if nparts > 1 else ""))
     files = Files()
     t0 = time.time()
     try:
@@ -575,35 +650,11 @@ def task_exhaustive(maxlen, part, nparts, seed):
                 for oi, order in enumerate(orders(seq)):
                     res = Result()
                     exp = expected_molecules(records, instances, set(order))
-                    run_case(files, seq, order, res, fresh_absent=(oi == 0), records=records, instances=instances,
-                             fgro=fgro, exp=exp)
+                    run_case(files, seq, order, res, fresh_absent=(oi == 0), only=only, records=records,
+                             instances=instances, fgro=fgro, exp=exp)
                     fam.add(res, {"kind": "generated", "seq": seq, "order": order}, nontrivial=len(exp) >= 2)
             finally:
                 files.drop(fgro)
-    finally:
-        files.close()
-    fam.secs = time.time() - t0
-    return fam.obligations()
-
-
-def task_sampled(maxlen, part, nparts, nsample, seed):
-    """Thorough-tier fallback for the longest length when exhausting it is too slow (not used when
-    exhaustive enumeration fits the budget)."""
-    rng = random.Random(1000 + seed)
-    allseq = [list(s) for s in itertools.product(FILE_SPECIES, repeat=maxlen) if any(k != "W" for k in s)]
-    pick = sorted(rng.sample(range(len(allseq)), min(nsample, len(allseq))))
-    fam = Family(f"seq={maxlen}.sample{nsample}.part{part:02d}of{nparts}")
-    files = Files()
-    t0 = time.time()
-    try:
-        for j, idx in enumerate(pick):
-            if j % nparts != part:
-                continue
-            seq = allseq[idx]
-            for oi, order in enumerate(orders(seq)):
-                res = Result()
-                run_case(files, seq, order, res, fresh_absent=(oi == 0))
-                fam.add(res, {"kind": "generated", "seq": seq, "order": order}, nontrivial=True)
     finally:
         files.close()
     fam.secs = time.time() - t0
@@ -738,7 +789,7 @@ def shipped_case(order, res, index_stride=1):
         res.bad("constructs", f"System(system_bmimbf4_cg.gro, {order}) raises {_exc(e)}", exc=type(e).__name__)
         return exp
     with contextlib.redirect_stdout(io.StringIO()):
-        check_system(s, exp, res, index_stride=index_stride)
+        check_system(s, exp, recs, res, index_stride=index_stride)
     return exp
 
 
@@ -761,6 +812,35 @@ def task_shipped(order, seed):
 # guards
 
 
+class _Proxy:
+    """The real System behind a deliberately corrupted access route (must-fail guards only)."""
+
+    def __init__(self, real, mode):
+        self._real, self._mode = real, mode
+
+    def __iter__(self):
+        return iter(self._real)
+
+    def __len__(self):
+        return len(self._real)
+
+    @property
+    def composition(self):
+        return self._real.composition
+
+    def __getitem__(self, i):
+        n = len(self._real)
+        if isinstance(i, slice):
+            if self._mode == "slice-ignores-step":
+                return self._real[slice(i.start, i.stop, None)]
+            return self._real[i]
+        if self._mode == "no-index-error" and i >= n:
+            return self._real[n - 1]
+        if self._mode == "last-is-first" and i == -1:
+            return self._real[0]
+        return self._real[i]
+
+
 def task_guards(maxlen, seed):
     out = []
     files = Files()
@@ -768,55 +848,13 @@ def task_guards(maxlen, seed):
         seq, order = ["S1", "W", "S3", "S2", "S1"], ["S2", "S3", "S1"]
         records, instances = build_records(seq)
         good = expected_molecules(records, instances, set(order))
+        sample = {"seq": seq, "order": order}
 
-        def g(name, caught, sample):
+        def g(name, caught, extra=None):
             out.append(ob(f"{PROP}/{name}", "refuted" if caught else "discharged", kind="guard", engine="smallscope",
-                          backend="runtime-contract", expect="refuted", sample=sample))
+                          backend="runtime-contract", expect="refuted", sample=dict(sample, **(extra or {}))))
 
-        # 0. the harness itself passes on this case (otherwise the guards below prove nothing)
-        r0 = Result()
-        run_case(files, seq, order, r0, records=records, instances=instances, exp=good)
-        out.append(ob(f"{PROP}/guards/guard.reference-case-passes", "discharged" if not r0.fail and not r0.harness else "refuted",
-                      kind="guard", engine="smallscope", backend="runtime-contract", expect="discharged",
-                      sample={"seq": seq, "order": order, "failed": sorted(r0.fail)}))
-        # 1. wrong clause: "molecules come in reverse file order"
-        r = Result()
-        run_case(files, seq, order, r, records=records, instances=instances, exp=good[::-1])
-        g(f"{CLAUSES['file_order']}/guard.must-fail.reversed-oracle",
-          "file_order" in r.fail and "getitem_int" in r.fail and "slices" in r.fail, {"seq": seq, "order": order})
-        # 2. wrong clause: "the solvent is recognised too"
-        r = Result()
-        run_case(files, seq, order, r, records=records, instances=instances,
-                 exp=expected_molecules(records, instances, set(order) | {"W"}))
-        g(f"{CLAUSES['len']}/guard.must-fail.solvent-counted",
-          "len" in r.fail and "composition" in r.fail and "file_order" in r.fail, {"seq": seq, "order": order})
-        # 3. corrupted observation: one coordinate of the file changed after the oracle was taken
-        rec2 = [dict(x) for x in records]
-        k = instances[2][1] + 3
-        rec2[k]["pos"] = (rec2[k]["pos"][0] + 0.5,) + tuple(rec2[k]["pos"][1:])
-        fg = files.gro(rec2)
-        r = Result()
-        run_case(files, seq, order, r, records=records, instances=instances, fgro=fg, exp=good)
-        g(f"{CLAUSES['atoms']}/guard.must-fail.coordinate-changed-in-file",
-          "atoms" in r.fail and "file_order" not in r.fail, {"seq": seq, "order": order, "atom": k})
-        # 4. corrupted observation: an atom name of the file differs from the topology => the molecule is not there
-        rec3 = [dict(x) for x in records]
-        rec3[0]["name"] = "ZZ"
-        fg = files.gro(rec3)
-        r = Result()
-        run_case(files, seq, order, r, records=records, instances=instances, fgro=fg, exp=good)
-        g(f"{CLAUSES['constructs']}/guard.must-fail.atom-name-mismatch", bool(r.fail), {"seq": seq, "order": order})
-        # 5. wrong clause: "a topology whose species is present is refused"
-        r = Result()
-        run_case(files, ["S1", "S2"], ["S1"], r, absent=["S2"])
-        g(f"{CLAUSES['refuses']}/guard.must-fail.present-topology-refused", "refuses" in r.fail, {"seq": ["S1", "S2"],
-                                                                                                 "order": ["S1"], "added": "S2"})
-        # 6. wrong clause: index N is inside the range
-        r = Result()
-        run_case(files, seq, order, r, records=records, instances=instances, exp=good[:-1])
-        g(f"{CLAUSES['index_error']}/guard.must-fail.shorter-oracle", "index_error" in r.fail and "len" in r.fail,
-          {"seq": seq, "order": order})
-        # 7. scope size (vacuity): closed form for the number of enumerated (sequence, order) cases
+        # scope size (vacuity): closed form for the number of enumerated sequences
         nseq = sum(1 for _ in sequences(maxlen))
         ncases = sum(len(orders(s)) for s in sequences(maxlen))
         want_seq = sum(4 ** n - 1 for n in range(1, maxlen + 1))
@@ -824,7 +862,7 @@ def task_guards(maxlen, seed):
                       "discharged" if nseq == want_seq and ncases >= nseq else "refuted", kind="guard",
                       engine="smallscope", backend="runtime-contract", expect="discharged",
                       sample={"sequences": nseq, "cases": ncases, "solvent_only_sequences": maxlen}))
-        # 8. precondition: species signatures distinct, Y,Y never a run of a generated file
+        # precondition: signatures distinct, species share no residue kind
         sigs = [(k, len(v)) for k, v in KINDS.items()]
         kinds_of = {k: set(SPECIES[k][1]) for k in FILE_SPECIES}
         disjoint = all(not (kinds_of[a] & kinds_of[b]) for a in FILE_SPECIES for b in FILE_SPECIES if a < b)
@@ -832,6 +870,63 @@ def task_guards(maxlen, seed):
                       "discharged" if len(set(sigs)) == len(sigs) and disjoint else "refuted", kind="guard",
                       engine="smallscope", backend="runtime-contract", expect="discharged",
                       sample={"signatures": sigs}))
+        # 0. the contract holds on the reference case (otherwise the must-fail guards below show nothing:
+        #    they are only evaluated when it does)
+        r0 = Result()
+        run_case(files, seq, order, r0, records=records, instances=instances, exp=good)
+        ref_ok = not r0.fail
+        out.append(ob(f"{PROP}/guards/guard.reference-case-passes", "discharged" if ref_ok else "refuted",
+                      kind="guard", engine="smallscope", backend="runtime-contract", expect="discharged",
+                      sample=dict(sample, failed=sorted(r0.fail), undecided=sorted(r0.harness))))
+        if not ref_ok:
+            return out
+        # 1. wrong clause: "molecules come in reverse file order"
+        r = Result()
+        run_case(files, seq, order, r, records=records, instances=instances, exp=good[::-1])
+        g(f"{CLAUSES['file_order']}/guard.must-fail.reversed-oracle", "file_order" in r.fail)
+        # 2. wrong clause: "the solvent is recognised too"
+        r = Result()
+        run_case(files, seq, order, r, records=records, instances=instances,
+                 exp=expected_molecules(records, instances, set(order) | {"W"}))
+        g(f"{CLAUSES['len']}/guard.must-fail.solvent-counted",
+          "len" in r.fail and "composition" in r.fail and "file_order" in r.fail)
+        # 3. corrupted observation: one coordinate of the file changed after the oracle was taken
+        rec2 = [dict(x) for x in records]
+        k = instances[2][1] + 3
+        rec2[k]["pos"] = (rec2[k]["pos"][0] + 0.5,) + tuple(rec2[k]["pos"][1:])
+        fg = files.gro(rec2)
+        r = Result()
+        run_case(files, seq, order, r, records=records, instances=instances, fgro=fg, exp=good)
+        g(f"{CLAUSES['atoms']}/guard.must-fail.coordinate-changed-in-file", "atoms" in r.fail and "file_order" not in r.fail,
+          {"atom": k})
+        # 4. corrupted observation: an atom name of the file differs from the topology => the molecule is not there
+        rec3 = [dict(x) for x in records]
+        rec3[0]["name"] = "ZZ"
+        fg = files.gro(rec3)
+        r = Result()
+        run_case(files, seq, order, r, records=records, instances=instances, fgro=fg, exp=good)
+        g(f"{CLAUSES['constructs']}/guard.must-fail.atom-name-mismatch", bool(r.fail))
+        # 5. wrong clause: "a topology whose species is present is refused"
+        r = Result()
+        run_case(files, ["S1", "S2"], ["S1"], r, absent=["S2"])
+        g(f"{CLAUSES['refuses']}/guard.must-fail.present-topology-refused", "refuses" in r.fail,
+          {"seq": ["S1", "S2"], "order": ["S1"], "added": "S2"})
+        # 6-8. corrupted access routes of the real object
+        fg = files.gro(records)
+        with contextlib.redirect_stdout(io.StringIO()):
+            real = _System()(fg, *[files.ftops[k] for k in order])
+            for mode, clause, want in (("no-index-error", "index_error", {"index_error"}),
+                                       ("last-is-first", "getitem_int", {"getitem_int[i<0]"}),
+                                       ("slice-ignores-step", "slices", {"slices[stepped]", "slices[reversed]"})):
+                r = Result()
+                check_system(_Proxy(real, mode), good, records, r)
+                g(f"{CLAUSES[clause]}/guard.must-fail.{mode}", set(r.fail) == want, {"failed": sorted(r.fail)})
+        # 9. wrong internal invariant: "the solvent residues are consumed too"
+        if "invariant" not in r0.harness:     # private layout readable on this tree
+            r = Result()
+            check_invariant(real, instances, set(order) | {"W"}, r)
+            g(f"{CLAUSES['invariant']}/guard.must-fail.solvent-consumed", "invariant" in r.fail)
+        del real
     finally:
         files.close()
     return out
@@ -843,14 +938,14 @@ def task_guards(maxlen, seed):
 def tasks(prop, tier, seed):
     t = []
     if tier == "quick":
-        maxlen, nparts = 4, 16
+        maxlen, nparts, nr = 4, 1, 2
     else:
-        maxlen, nparts = 6, 64
-    for p in range(nparts):
-        t.append((f"exhaustive/seq<={maxlen}/part{p:02d}", task_exhaustive, (maxlen, p, nparts, seed),
-                  300.0 if tier == "quick" else 1500.0))
+        maxlen, nparts, nr = 6, 6, 16
+    for group, _ in EXH_GROUPS:
+        for p in range(nparts):
+            t.append((f"exhaustive/seq<={maxlen}/{group}" + (f"/part{p:02d}" if nparts > 1 else ""), task_exhaustive,
+                      (maxlen, group, p, nparts, seed), 600.0 if tier == "quick" else 2400.0))
     t.append(("solvent-only", task_solvent_only, (maxlen, seed), 120.0))
-    nr = 4 if tier == "quick" else 16
     for p in range(nr):
         t.append((f"random-longer/part{p:02d}", task_random, (tier, p, nr, seed), 300.0 if tier == "quick" else 1200.0))
     t.append(("shipped/BMIM+BF4", task_shipped, (["BMIM", "BF4"], seed), 600.0))
@@ -886,5 +981,5 @@ def replay(prop, cex):
                      **{f"{k}.itp": itp_text(k) for k in list(cex["order"]) + ([cex["absent"]] if cex.get("absent") else [])}}
     return {"reproduced": rep,
             "observed": failed.get(clause) if clause in failed else (failed or "every clause holds"),
-            "expected": f"clause {CLAUSES.get(clause, clause)} of the statement holds for this file and loading order",
+            "expected": f"clause {CLAUSES.get(str(clause).split('[')[0], clause)} of the statement holds for this file and loading order",
             "violated_clauses": sorted(failed), "inputs": cex, "files": files_txt}
